@@ -191,14 +191,16 @@ def drivers(ctx, variant="plain"):
     return impl, model_bin
 
 
-def impl_env(variant="plain", damage=False, dev=None):
+def impl_env(variant="plain", damage=False, dev=None, as_mb=2048):
+    """damage: address-space limit (a corrupted length field then surfaces as std::bad_alloc instead
+    of an allocation of up to 4 GiB that succeeds and is zero-filled) and a per-case alarm"""
     env = {"PV_IO_TMP": TMP}
     if dev:
         env["PV_DEV"] = dev
     if damage:
         env["PV_CASE_SECONDS"] = "60"
         if variant == "plain":
-            env["PV_AS_LIMIT_MB"] = "2048"
+            env["PV_AS_LIMIT_MB"] = str(as_mb)
     if variant == "asan":
         # RLIMIT_AS is incompatible with the shadow memory; the allocator limit turns a
         # corrupted length into std::bad_alloc just as the address-space limit does
